@@ -35,7 +35,7 @@ CHECKS = {
   "openFile/OpenFile/Open/Create/Edit return a fresh, open descriptor holding exactly the lock its flags demand (write access => exclusive, otherwise shared) and touch no other descriptor; "
   "closeFile unlocks before closing; File.Close releases on the first call and touches nothing on later calls. Proved for all flags, names and failure outcomes of the underlying calls.",
   "assumed: flock(2) gives mutual exclusion between open file descriptions holding these modes (kernel semantics, NFS, fcntl interaction are outside the model); extern contracts of os.OpenFile, (*os.File).Close/Fd, syscall.Flock over the ghost state; "
-  "bit masks of symbolic flags via uninterpreted band/bandnot/bor with range/single-bit axioms; Mutex.Lock is not yet under contract; exclusion across processes itself follows only on paper from the per-descriptor statement",
+  "bit masks of symbolic flags via uninterpreted band/bandnot/bor with range/single-bit axioms; exclusion across processes itself follows only on paper from the per-descriptor statement",
   "contract-based deductive verification: ghost typestate per descriptor, call-site obligations, loop invariant for the EINTR retry loop; z3/cvc5"),
  "C07": ("5 C07",
   "Transform is proved failure-atomic: with at most one failing file operation (ghost failBudget == 1; a failing WriteAt may have written any prefix) and for every old/new length relation, an error return leaves bytes and length of the file as they were, "
@@ -49,7 +49,7 @@ CHECKS = {
   "so no lookup panics; every error returned by get/Get/GetBytes/GetFile is the not-found error type; get succeeds only on a record of exactly the specified size with the specified header/separator bytes, "
   "whose decoded action id equals the requested id, and with non-negative size and time; GetBytes returns data only when sha256(data) equals the reported OutputID; GetFile returns a name only when the file's length equals the reported size. Put hashes and copies its source from offset 0 (ghost seek position), and the store-side step obligations of C11/C12 are part of this check's set.",
   "assumed: extern contracts for io.ReadFull, encoding/hex.Decode, strconv.ParseInt, crypto/sha256.Sum256 (uninterpreted, deterministic), os.Stat/ReadFile/Open; [32]byte values compare as whole arrays. "
-  "NOT decided by this check: the store side (Put then Get returns exactly the data; repair of a damaged output) — put/copyFile/putIndexEntry are not yet under contract, see C12/C11 in not_applicable",
+  "NOT decided by this check: the end-to-end lemma 'Put then Get returns exactly the data' and the repair of a damaged output as one statement: put/copyFile/putIndexEntry are under step contracts (C11/C12) that are part of this check's set, but the combination is on paper",
   "contract-based deductive verification: safety and functional postconditions over go/ssa with ghost bindings of the read buffer; z3/cvc5"),
  "C08": ("5 C08",
   "Proved by contract, for all pairs of texts: Diff returns nil exactly when the two inputs are byte-identical and otherwise a non-empty result; every index and slice expression of Diff's nine loops is in bounds (relative to the contract of the anchor computation tgs: sentinels, pairs inside the texts, interior pairs name equal lines unique in both texts, pairs increasing); "
@@ -67,7 +67,7 @@ CHECKS = {
   "f is called outside the lock while counted in F (at most n at a time); Do starts exactly n-1 goroutines plus itself; rand.Intn is called with a non-empty queue. While any runner sleeps, every queued item has a signalled runner of its own (an Add that finds a sleeper always wakes one).",
   "assumed: sync.Mutex / sync.Cond semantics as two-phase contracts (Wait returns only to a signalled sleeper, no spurious wake-ups), the ownership reading of the rely clause (each active runner owns one unit of spawned - (S+K+X+F)), "
   "Work.running/f/wait.L are written only by Do before the runners start (not in the shared set); f touches the Work only through Add. "
-  "NOT decided: that each distinct item is passed to f exactly once and duplicates are ignored (needs an invariant over the contents of todo and added), and termination/liveness proper (fair scheduler, terminating f)",
+  "Item level: Add queues an item exactly when it was not in added (snapshot ghosts over todo/added), runner hands f only items taken out of todo; that the map 'added' itself de-duplicates is the Go map's; NOT decided: termination/liveness proper (fair scheduler, terminating f)",
   "contract-based deductive verification: rely/guarantee clauses with ghost counters, ghost updates at call sites, two-phase blocking-call contracts; thread-modular VCs discharged by z3/cvc5"),
  "C10": ("5 C10",
   "Rely-guarantee proof over the shared entry state (done, result, ghost invocation count and returned value, mutex held-flag): the environment may take arbitrary steps allowed by the rely clause before every shared access and around every call; "
@@ -111,15 +111,15 @@ CHECKS = {
   "and the lemma that data whose every line starts with '>' contains no marker line, so a quoted body never needs quoting. "
   "txtar-c's walk function: a file is archived only if regular, not hidden (unless -a) and valid UTF-8; what is stored is the data NeedsQuote was asked about, quoted exactly when it needs quoting and only with -quote, and a quoted file is announced in the comment. "
   "Unquote(Quote(data)) == data is checked by a BOUNDED stand-in only (generated bodies over {'>', LF, '-', ' ', 'x', CR}).",
-  "assumed: extern contracts for bytes.*, strings.TrimSpace, utf8.Valid (uninterpreted); Unquote (bytes.Replace / TrimPrefix) has no functional contract: bounded only; 'survives Format/Parse unchanged' rests on C03's stand-in; in txtar-c the final-newline normalisation and the relative file name are not specified, os/filepath.Walk is the library's",
+  "assumed: extern contracts for bytes.*, strings.TrimSpace, utf8.Valid (uninterpreted); Unquote (bytes.Replace / TrimPrefix) has no functional contract: bounded only; 'survives Format/Parse unchanged' rests on C03's stand-in; in txtar-c the relative file name is not specified (the final-newline normalisation is: at most one added newline), os/filepath.Walk is the library's",
   "contract-based deductive verification: VCs over go/ssa with loop invariants and a lemma, call-site obligations and ghost bindings for txtar-c; z3/cvc5; counterexamples replayed with go test -overlay; labelled bounded stand-in for Unquote"),
  "C01": ("5 C01",
   "Verdict logic under contract: run executes a line only while no line has failed unless ContinueOnError and never after stop; a failing line without ContinueOnError reaches FailNow; run returns normally only if no line failed (a failure with ContinueOnError still ends in FailNow: no false pass); "
   "PASS is logged only for a run that neither failed nor stopped; Fatalf's FAIL line carries the script's file name and current line number; runLine never dispatches an unknown command and indexes its argument list safely for every line; "
   "catchFailNow runs its callback only for the failNow panic value; the polarity applied to each [cond] guard is that of this very guard; demands of exists (every listed file exists, or with ! does not) and of stdout/stderr/grep/ttyout (match, or with ! no match; with -count=N exactly N matches) hold on every normal return; "
   "for cd, chmod, cp, mkdir, mv, symlink, unquote, unix2dos, stdin, stop, cmp/cmpenv, wait and rm a normal return means the command was not negated where negation is unsupported, was used with the right number of arguments (every args index in bounds), and (except rm's best-effort first removal) no file operation it performed failed; skip never returns normally. condition() is under contract (an operating-system name holds exactly for the current OS, an architecture name for the current architecture, unix per the table, gc/gccgo, exec: through the cache; anything else needs a user Condition, else Fatalf); the standalone command's Run never clears its failure flag (a failing script followed by a passing one still exits non-zero).",
-  "assumed: only non-panicking executions are modelled (a Fatalf call ends its path, recover() is nil), so runLine's boolean result and callBuiltinCmd's panic filtering are trusted, as are condition, cmdEnv, waitBackgroundOne, unix2DOS and the logging closures (setup and waitBackground are verified under C04); "
-  "T.FailNow / T.Fatal do not return; regexp semantics are uninterpreted (matchP / countP). NOT decided: env, kill, ttyin; what a successful cp/mv/mkdir/... did to the file system (the OS's); the evaluation of a condition itself (condition() is trusted), background-command status in wait, and the standalone testscript command's exit status; exec's verdict is covered as far as C04's process accounting and the usage check go",
+  "assumed: only non-panicking executions are modelled (a Fatalf call ends its path, recover() is nil), so runLine's boolean result and callBuiltinCmd's panic filtering are trusted, as are cmdEnv, waitBackgroundOne (bounded stand-in under C04), condition's user-callback closure, unix2DOS and the logging closures (setup and waitBackground are verified under C04); "
+  "T.FailNow / T.Fatal do not return; regexp semantics are uninterpreted (matchP / countP). NOT decided: env, kill, ttyin; what a successful cp/mv/mkdir/... did to the file system (the OS's); the evaluation of a user-supplied Condition callback, background-command status in wait, and the standalone testscript command's exit status beyond 'the failure flag is never cleared'; exec's verdict is covered as far as C04's process accounting and the usage check go",
   "contract-based deductive verification: loop invariant over the script loop, call-site obligations and per-command postconditions over go/ssa; z3/cvc5"),
  "C02": ("5 C02",
   "Contracts on the tokenizer parse (every line[i], line[i+1], line[start:i] in bounds for every line; the scan terminates; every call of expand happens outside quotes, i.e. quoted text is never expanded), "
@@ -143,8 +143,8 @@ CHECKS = {
   "a .info / .mod request answers with exactly one write, of the data of the first stored file named .info / .mod, and nothing else; the zip closure creates an entry only for stored files whose name does not start with a dot, "
   "under the name path@version/<file name> (byte-exact) and writes exactly that file's data into it; the list endpoint prints only versions of the requested module path that are not pseudo-versions and pass module.Check, and prints that entry's version; "
   "every request is answered (a body write or a status), a 404 never carries a body, missing archives / unknown extensions / undecodable paths give 404; the handler writes no field of the Server (frame: modList and the caches are read only); all slice/index expressions are in bounds for arbitrary URLs. The commit-hash resolution considers only versions of the requested module, updates its choice only to a semver-greater version, decides pseudo-versions by their suffix and others by findHash, and tests the prefix relation both ways; the path part is decoded with UnescapePath and the version part with UnescapeVersion; the directory walk never skips a directory; readModList splits names at the last _v.",
-  "assumed (trusted, not verified): readArchive/findHash/isPseudoVersion are side-effect free and unspecified (archive loading from .txt/.txtar/directories is NOT decided); par.Cache.Do runs the closure and returns its value (C10's contract is not re-used here: a local thin contract, type assertion .(cached) assumed); "
-  "archive/zip, net/http, fmt.Fprintf, x/mod module and semver as extern contracts; byte-identity of the HTTP body on the wire and validity of the zip container are the libraries'; 'same under concurrent requests' follows only from the frame (handler writes no server state) plus C10 on paper; the commit-hash to version resolution is proved safe but not functionally specified",
+  "assumed (trusted, not verified): readArchive/findHash/isPseudoVersion themselves are trusted (side-effect free); the archive-loading closures readArchive$1 / readArchive$1$1 and readModList are under contract (.txtar first, .txt only if absent, directory only if neither; the file read is the one visited; names split at the last _v); par.Cache.Do runs the closure and returns its value (C10's contract is not re-used here: a local thin contract, type assertion .(cached) assumed); "
+  "archive/zip, net/http, fmt.Fprintf, x/mod module and semver as extern contracts; byte-identity of the HTTP body on the wire and validity of the zip container are the libraries'; 'same under concurrent requests' follows only from the frame (handler writes no server state) plus C10 on paper; the commit-hash to version resolution is specified relative to abstract storedHash / prefix / semver-order functions, not to findHash's body",
   "contract-based deductive verification: call-site obligations and loop invariants over a ghost HTTP response, byte-level string concatenation for the zip entry names; z3/cvc5"),
  "C04": ("5 C04",
   "Contracts over the per-script state and ghost process/clean-up state. setup (fully under contract): the environment list is the literal list (WORK=<workdir> first, GOTRACEBACK=system, ..., $=$) plus at most GOCOVERDIR/GORACE plus exe=; the host environment is read only through os.Getenv with the keys PATH, GOCOVERDIR, GORACE and os.Environ is never called; "
@@ -155,8 +155,8 @@ CHECKS = {
   "waitBackground and run's clean-up closure receive from every recorded wait channel on both branches before clearing the list. "
   "RunT hands pairwise distinct names to t.Run (partial contract: only this clause and its loop invariants are proved for RunT); RunT's per-script closure allocates a fresh TestScript, registers the clean-up before run; the clean-up removes ts.workdir unless retention was requested and removes the shared root (and cancels) exactly when its own atomic decrement brings the count to zero; removeAll removes the tree it was asked to. writeFile opens with create+truncate and exclusively exactly when asked to; waitBackgroundOne (pointers into the background slice, outside the modelled subset) is covered by a BOUNDED stand-in only: every list of up to 3 (quick) / 4 (thorough) entries on real processes, every named target: exactly that entry is removed after its process was waited for.",
   "NOT decided: non-interference between parallel scripts beyond 'fresh per-script state, no os.Environ, distinct clean-up' (scripts sharing files through absolute paths, cd, or chdir of the process are outside any per-call contract); that a signalled process really dies and os.RemoveAll succeeds; the Fatalf/FailNow paths run deferred functions by runtime.Goexit (Go semantics, assumed). "
-  "assumed (trusted): user clean-up functions (run$4) do not touch ts.background; writeFile, homeEnvName/tempEnvName, abbrev, the pty helpers of exec; externs for os/exec, os, filepath, context, fmt; Params.Setup modifies only Env fields, ts.deferred, strings and files; "
-  "waitBackground is verified without its index/type-assertion safety (nosafety, assume_typeasserts)",
+  "assumed (trusted): user clean-up functions (run$4) do not touch ts.background; homeEnvName/tempEnvName, abbrev, the pty helpers of exec; externs for os/exec, os, filepath, context, fmt; Params.Setup modifies only Env fields, ts.deferred, strings and files; "
+  "waitBackground is verified without its index/type-assertion safety (nosafety, assume_typeasserts); waitBackgroundOne is outside the modelled subset (pointer into a slice element) and covered by the labelled bounded stand-in TestVerifBoundedWaitOne only",
   "contract-based deductive verification: call-site obligations over the symbolic defer stack (deferIndex), closure facts (isClosure/capturedInt), ghost process counters and received-channel history, loop invariants over the environment list; z3/cvc5"),
 }
 
